@@ -1,4 +1,4 @@
-(* Model of the SEMANTIC decisions of print_xact (print.cc:44-72, 103-128, 200-296), of what the
+(* Model of the SEMANTIC decisions of print_xact (print.cc:44-72, 103-129, 201-303), of what the
    journal reader makes of the lines print emits (textual.cc parse_post 1439-1817: state mark,
    absent amount = elided posting, `@ u` -> cost u * amount, `@@ t` -> cost t (negated for a
    negative amount), `= a` -> assigned amount), and of posts_as_equity::report_subtotal
@@ -93,9 +93,16 @@ Definition simple_amount (x : xpost) : bool :=
 Definition amt_comm (p : post) : option comm :=
   match p_amt p with Some a => acomm a | None => None end.
 
-(* format_account_name: posting marks are printed only under an UNCLEARED transaction *)
+(* format_account_name (print.cc:103-110): a posting's mark is written whenever its state differs
+   from the transaction's; the transaction's own mark covers the postings that share it *)
 Definition mark_of (xs : pstate) (e : extra) : pstate :=
-  match xs with SUncleared => e_state e | _ => SUncleared end.
+  if pstate_eqb (e_state e) xs then SUncleared else e_state e.
+
+(* the elision test of print.cc:230-236: two postings, this is the second, BOTH must balance,
+   both have simple amounts, of one commodity *)
+Definition elides (count index : nat) (first x : xpost) : bool :=
+  Nat.eqb count 2 && Nat.eqb index 2 && must_balance (fst x) && must_balance (fst first)
+  && simple_amount x && simple_amount first && comm_eqb (amt_comm (fst first)) (amt_comm (fst x)).
 
 (* one posting line; None = the posting is not printed at all (ITEM_GENERATED without --generated).
    count = xact.posts.size(), index = 1-based position, first = *xact.posts.begin() *)
@@ -109,14 +116,15 @@ Definition decide_post (cp : comm -> Z) (xs : pstate) (count index : nat) (first
     match p_amt p with
     | None => Ok (Some (mkLine (p_acct p) (p_kind p) (mark_of xs e) None None None None))
     | Some a =>
-        let elide := Nat.eqb count 2 && Nat.eqb index 2 && simple_amount x && simple_amount first
-                     && comm_eqb (amt_comm (fst first)) (amt_comm p) in
+        let elide := elides count index first x in
         let shown := if elide then None else Some (read_back_value cp a) in
         do cost <-
           (match e_given e with
            | Some g =>
                if p_calculated p || p_cost_calculated p then Ok None
                else if e_in_full e then Ok (Some (CTotal, e_cost_virtual e, read_back cp (amt_abs g)))
+               else if is_realzero a then      (* no per-unit price can be recovered from a zero amount *)
+                 Ok (Some (CTotal, e_cost_virtual e, read_back cp (amt_abs g)))
                else do u <- amt_div cp g a;
                     Ok (Some (CPerUnit, e_cost_virtual e, read_back cp (amt_abs u)))
            | None => Ok None
